@@ -27,7 +27,8 @@ class Check(Prop):
     ID = "C01"
     RULE = ("cases = (source bytes, flags in {none, -i}); enumerated: every line prefix (with/without final newline) of a "
             "fixed subset of the golden corpus; generated: token/line prefixes, 1-3 stacked token mutations with a hostile "
-            "dictionary, concatenated hostile fragments, raw bytes and unicode text. Oracle: real analysis rounds finish "
+            "dictionary, concatenated hostile fragments, raw bytes and unicode text, complete grammar-generated programs with their prefixes and "
+            "token mutants, cyclic hierarchies and value cycles. Oracle: real analysis rounds finish "
             "without a Go panic/fatal error (exit 0, empty stderr on the real binary) and every stdout line matches "
             "<file>:::<row>:::msg or @<file>:::<row>:::... . Non-trivial = input not byte-identical to a corpus file and "
             ">= 5 tokens; distinct by SHA-1(input, flags).")
@@ -62,6 +63,10 @@ class Check(Prop):
 
     def strategy(self):
         texts = self.texts
+        from .. import rb
+        from .c02 import cyclic, value_cycles
+        whole = rb.program(max_stmts=8, case_in=True, errors=0.15).map(lambda p: rb.render(p["tree"]))
+        gen_texts = st.lists(whole, min_size=1, max_size=1).map(lambda xs: mutate.Texts(xs))
         src = st.one_of(
             mutate.prefix_of(texts),
             mutate.mutated(texts),
@@ -69,6 +74,10 @@ class Check(Prop):
             mutate.fragments(),
             mutate.raw_latin1(),
             mutate.raw_text(),
+            whole,                                              # complete grammar-generated programs (valid and ill-typed)
+            gen_texts.flatmap(mutate.prefix_of),               # what an editor sends while such a program is typed
+            gen_texts.flatmap(mutate.mutated),                  # token mutants of generated programs
+            cyclic(), value_cycles(),                           # cyclic hierarchies / value cycles (shared with C02)
         )
         return st.fixed_dictionaries({"src": src, "flags": st.sampled_from([[], ["-i"]])})
 
